@@ -278,7 +278,13 @@ def check_dispatcher(chk, tu):
     body = astdb.fn_body(f)
     chk.fn('wasmModuleReadSection')
     # indirect call through the table, start snapshot before, end comparison after
-    calls = [c for c in walk(body) if c.get('kind') == 'CallExpr' and astdb.callee_name(c) is None or (c.get('kind') == 'CallExpr' and astdb.callee_name(c) == 'wasmSectionReader')]
+    def indirect(c):
+        """call through a local function-pointer variable (whatever it is called)"""
+        if c.get('kind') != 'CallExpr':
+            return False
+        cal = strip(kids(c)[0], casts=True)
+        return cal.get('kind') == 'DeclRefExpr' and cal.get('referencedDecl', {}).get('kind') in ('VarDecl', 'ParmVarDecl')
+    calls = [c for c in walk(body) if indirect(c)]
     chk.require(calls, 'no indirect reader call in wasmModuleReadSection')
     call = calls[0]
     args = [astdb.expr_text(strip(a, casts=True)) for a in astdb.call_args(call)]
